@@ -125,6 +125,33 @@ def c14_2(ctx):
     _refcheck(ctx, MERKLE, "merkle", "mk_merkle", "merkle-levels")
     _refcheck(ctx, MERKLE, "merkle_pair", ["mk_merkle_pair", "mk_merkle_pair_v2"], "odd-level-duplication")
     m = ctx.func(MERKLE, "merkle")
+    # the only thing that ever lengthens a row is merkle_pair's duplication of the last element of an odd LEVEL: merkle itself
+    # hands rows on as they are (padding the leaf row up front builds another tree for 6, 10, 11, 12 ... leaves)
+    row = m.params()[0]
+    rows = {row}
+    for v, st in [(v, st) for n_, ds in df.assignments(m.node).items() for v, st in ds if isinstance(v, ast.AST)]:
+        if any(isinstance(x, ast.Name) and x.id in rows for x in ast.walk(v)):
+            rows |= {t.id for t in ast.walk(st) if isinstance(t, ast.Name) and isinstance(t.ctx, ast.Store)}
+    for n_, ds in sorted(df.assignments(m.node).items()):
+        if n_ not in rows:
+            continue
+        for v, st in ds:
+            if not isinstance(v, ast.AST):
+                continue
+            t = norm(v)
+            if isinstance(v, ast.Call) and norm(v.func).endswith("merkle_pair") and v.args and isinstance(v.args[0], ast.Name) and v.args[0].id in rows:
+                ctx.ok("row-handed-on:%s" % n_)
+            elif t in ["list(%s)" % r for r in rows] + ["%s[:]" % r for r in rows] + ["tuple(%s)" % r for r in rows] + list(rows):
+                ctx.ok("row-copied:%s" % n_)
+            elif any(isinstance(x, ast.BinOp) and isinstance(x.op, (ast.Add, ast.Mult)) for x in ast.walk(v)) and any(isinstance(x, ast.Name) and x.id in rows for x in ast.walk(v)):
+                ctx.bad("row-extended-outside-levels", ctx.where(m, st), "merkle builds the row `%s` itself: rows are lengthened only by merkle_pair, one duplicated element per odd level" % t[:80], sample={"row": t[:100]})
+            else:
+                ctx.undecided("row-handed-on", ctx.where(m, st), "merkle computes a row as `%s`; this rule reads merkle_pair(row, ...) and copies only" % t[:80])
+    from sa.ef import writes_in as _writes_in
+    for wr in _writes_in(m):
+        r = wr.node.func.value if isinstance(wr.node, ast.Call) and isinstance(wr.node.func, ast.Attribute) else None
+        if isinstance(r, ast.Name) and r.id in rows and wr.node.func.attr in ("append", "extend", "insert"):
+            ctx.bad("row-extended-outside-levels", ctx.where(m, wr.node), "merkle lengthens a row itself (%s): rows are lengthened only by merkle_pair, one duplicated element per odd level" % wr.text)
     a = m.node.args
     ctx.check(len(a.defaults) == 1 and norm(a.defaults[0]) == "double_sha256", "merkle-default-hash", ctx.where(m), "merkle's default hash is not double_sha256")
     _refcheck(ctx, BLOCK, "Block.check_merkle_hash", "blk_check_merkle_hash", "merkle-mismatch-raises")
